@@ -1166,7 +1166,8 @@ class SyncManager(Runnable):
                     log.debug("same remote oid")
                     if e[synced].sync_hash != e[synced].hash:
                         found = e
-                    elif not e[synced].changed and not (e[changed].oid and self.providers[changed].exists_oid(e[changed].oid)):
+                    elif not e[synced].changed and not (e[changed].oid and e[changed].oid != sync[changed].oid and
+                                                        self.providers[changed].exists_oid(e[changed].oid)):
                         log.info("merge split entries")
                         sync[synced] = e[synced]
                     elif e[synced].otype == DIRECTORY and sync[synced].otype == FILE:
